@@ -535,7 +535,12 @@ func (database *ChainDatabase) appendConfirm(block *types.Block, confirms []type
 func (database *ChainDatabase) setConfirm(hash common.Hash, confirms []types.SignData) (*types.Block, error) {
 	item := database.UnConfirmBlocks[hash]
 	if (item != nil) && (item.Block != nil) {
-		database.appendConfirm(item.Block, confirms)
+		// The network and RPC goroutines get this block through GetBlockByHash, GetUnConfirmByHeight or
+		// the current block and read its Confirms without RW. So a block that was handed out is never
+		// changed in place: the longer list goes into a copy of the Block, which replaces it in the tree
+		newBlock := *item.Block
+		database.appendConfirm(&newBlock, confirms)
+		item.Block = &newBlock
 		return item.Block, nil
 	} else {
 		block, err := database.getBlock4DB(hash)
